@@ -981,6 +981,359 @@ theorem addItem_spec (s : Store) (l : LH) (n : Option Name) (v : Option V) (hg :
           rw [hloops, hcon, hnx, hf, hbk]
           rfl
 
+/-- the values GET_VALUE_SQL yields for an item are the item's column in the documented model (none when the container has no
+    such item) -/
+theorem valuesOf_column (d : Db) (hg : Good d) (cid : Nat) (key : Str) :
+    (d.valuesOf cid key).map (·.val) = (absS d).columnOf cid key := by
+  have hinv := hg.inv
+  unfold AState.columnOf
+  show _ = (match (d.loops.map (absALoop d)).find? _ with | some x => x.column key | none => [])
+  rw [List.find?_map]
+  cases hf : d.loops.find? ((fun y : ALoop => y.cid == cid && y.hasItem key) ∘ absALoop d) with
+  | none =>
+    simp only [Option.map_none]
+    -- no loop of the container has the item: no value either
+    have hno : d.hasItem cid key = false := by
+      cases hh : d.hasItem cid key with
+      | false => rfl
+      | true =>
+        obtain ⟨i, him, hic, hik⟩ := (hasItem_iff _ _ _).mp hh
+        obtain ⟨y, hy, hyc, hyn⟩ := (hasLoop_iff _ _ _).mp (hinv.itemFK i him)
+        have := List.find?_eq_none.mp hf y hy
+        simp only [Function.comp, Bool.and_eq_true, not_and, Bool.not_eq_true] at this
+        have h1 : ((absALoop d y).cid == cid) = true := by simp [absALoop, hyc, hic]
+        have h2 := this h1
+        rw [hasItem_absALoop] at h2
+        have : (d.loopItems y.cid y.loopNum).any (fun i => i.name == key) = true :=
+          List.any_eq_true.mpr ⟨i, List.mem_filter.mpr ⟨him, by simp [hyc, hyn]⟩, by simp [hik]⟩
+        rw [this] at h2; cases h2
+    have : d.values.filter (fun v => v.cid == cid && v.name == key) = [] := by
+      rw [List.filter_eq_nil_iff]
+      intro v hv hk
+      simp at hk
+      have := hinv.valueFK v hv
+      rw [hk.1, hk.2, hno] at this; cases this
+    show ((d.values.filter (fun v => v.cid == cid && v.name == key)).foldr Db.insertByRow []).map _ = []
+    rw [this]; rfl
+  | some x =>
+    simp only [Option.map_some]
+    have hx := List.mem_of_find?_eq_some hf
+    have hk := List.find?_some hf
+    simp only [Function.comp, Bool.and_eq_true] at hk
+    have hxc : x.cid = cid := by simpa [absALoop] using hk.1
+    have hhas := hk.2
+    rw [hasItem_absALoop] at hhas
+    -- the position of the item in the loop
+    let L := d.loopItems x.cid x.loopNum
+    have hidx : (absALoop d x).items.findIdx (fun it => it.1 == key) = L.findIdx (fun i => i.name == key) := by
+      show (L.map (fun i => (i.name, i.nameOrig))).findIdx _ = _
+      rw [List.findIdx_map]; rfl
+    have hlt : L.findIdx (fun i => i.name == key) < L.length := List.findIdx_lt_length.mpr (by
+      obtain ⟨i, hi, hik⟩ := List.any_eq_true.mp hhas
+      exact ⟨i, hi, hik⟩)
+    let i := L[L.findIdx (fun i => i.name == key)]
+    have hin : i.name = key := by
+      have := List.findIdx_getElem (p := fun i : ItemRow => i.name == key) (xs := L) (w := hlt)
+      simpa using this
+    have him : i ∈ L := List.getElem_mem hlt
+    have hget : L[L.findIdx (fun i => i.name == key)]? = some i := by simp [i, hlt]
+    have h1 := getValue_good d hg x hx i him
+    have h2 := absColumn_is_column d x i _ hget
+    rw [hxc, hin] at h1
+    rw [h1, ← h2]
+    show _ = (absALoop d x).packets.map (fun p => p.getD ((absALoop d x).items.findIdx (fun it => it.1 == key)) .unk)
+    rw [hidx]
+    rfl
+
+/-- cif_container_get_value -/
+theorem getValue_spec (s : Store) (h : CH) (n : Option Name) (hg : Good s.db) : (getValue s h n).2 = specGetValue (absS s.db) h n := by
+  unfold getValue specGetValue
+  cases n with
+  | none => rfl
+  | some nm =>
+    simp only []
+    cases hv : nm.valid with
+    | false => rfl
+    | true =>
+      simp only [Bool.not_true, Bool.false_eq_true, if_false]
+      rw [← valuesOf_column s.db hg h.id nm.key]
+      cases hvo : s.db.valuesOf h.id nm.key with
+      | nil => rfl
+      | cons v vs =>
+        cases vs with
+        | nil => rfl
+        | cons w ws => rfl
+
+/-- DESTROY_LOOP_SQL of an existing loop on `absS`: exactly that loop goes -/
+theorem absS_deleteLoop (d : Db) (hg : Good d) (x : LoopRow) (hx : x ∈ d.loops) :
+    absS (d.deleteLoops (fun y => y.cid == x.cid && y.loopNum == x.loopNum)) =
+      { absS d with loops := (absS d).loops.filter (fun y => !(y.cid == x.cid && y.num == x.loopNum)) } := by
+  have hr := destroyLoop_refines d x hg.inv
+  simp only [] at hr
+  obtain ⟨l1, hoth, f1, b1⟩ := hr
+  have hdl : (d.destroyLoop x.cid x.loopNum).1 = d.deleteLoops (fun y => y.cid == x.cid && y.loopNum == x.loopNum) := rfl
+  rw [hdl] at l1 hoth f1 b1
+  show ({ containers := (d.deleteLoops _).containers, blocks := (d.deleteLoops _).blocks, frames := (d.deleteLoops _).frames,
+          nextId := (d.deleteLoops _).nextId, loops := (d.deleteLoops _).loops.map (absALoop (d.deleteLoops _)) } : AState) = _
+  rw [f1, b1, l1]
+  have hc : (d.deleteLoops (fun y => y.cid == x.cid && y.loopNum == x.loopNum)).containers = d.containers := rfl
+  have hni : (d.deleteLoops (fun y => y.cid == x.cid && y.loopNum == x.loopNum)).nextId = d.nextId := rfl
+  rw [hc, hni]
+  have hl : (d.loops.filter (fun y => !(y.cid == x.cid && y.loopNum == x.loopNum))).map (absALoop (d.deleteLoops (fun y => y.cid == x.cid && y.loopNum == x.loopNum))) =
+      (d.loops.map (absALoop d)).filter (fun y => !(y.cid == x.cid && y.num == x.loopNum)) := by
+    rw [List.filter_map]
+    have : ((fun y : ALoop => !(y.cid == x.cid && y.num == x.loopNum)) ∘ absALoop d) = (fun y : LoopRow => !(y.cid == x.cid && y.loopNum == x.loopNum)) := by
+      funext y; rfl
+    rw [this]
+    apply List.map_congr_left
+    intro y hy
+    obtain ⟨hym, hyk⟩ := List.mem_filter.mp hy
+    have hyk' : (y.cid == x.cid && y.loopNum == x.loopNum) = false := by
+      cases hb : (y.cid == x.cid && y.loopNum == x.loopNum) with
+      | false => rfl
+      | true => rw [hb] at hyk; cases hyk
+    unfold absALoop
+    rw [deleteLoops_loopItems d _ (fun a b hc hl => by simp only [hc, hl]) y hyk']
+    rw [hoth y hym (fun ⟨e1, e2⟩ => by simp [e1, e2] at hyk')]
+  rw [hl]
+  rfl
+
+theorem zip_map_filter_snd {α β γ} (f : α → β) (g : α → γ) (p : α → Bool) (q : β → Bool) (h : ∀ a, q (f a) = p a) :
+    ∀ L : List α, (((L.map f).zip (L.map g)).filter (fun e => q e.1)).map (·.2) = (L.filter p).map g
+  | [] => rfl
+  | a :: as => by
+    simp only [List.map_cons, List.zip_cons_cons, List.filter_cons, h a]
+    cases p a <;> simp [zip_map_filter_snd f g p q h as]
+
+/-- cif_container_remove_item on an existing container, outside any transaction, commutes with `absS` and returns the documented
+    model's code -/
+theorem removeItem_spec (s : Store) (hd : CH) (n : Option Name) (hg : Good s.db) (hac : s.autocommit = true) :
+    absS (removeItem s hd n).1.db = (specRemoveItem (absS s.db) hd n).1 ∧ (removeItem s hd n).2 = (specRemoveItem (absS s.db) hd n).2 := by
+  have hinv := hg.inv
+  unfold removeItem specRemoveItem
+  cases n with
+  | none => exact ⟨rfl, rfl⟩
+  | some nm =>
+    simp only []
+    cases hval : nm.valid with
+    | false => simp
+    | true =>
+      have hb : s.begin = some { s with txn := some s.db } := by unfold Store.begin; simp [hac]
+      simp only [Bool.not_true, Bool.false_eq_true, if_false, hb]
+      have hil : (absS s.db).itemLoop hd.id nm.key =
+          (s.db.loops.find? ((fun y : ALoop => y.cid == hd.id && y.hasItem nm.key) ∘ absALoop s.db)).map (absALoop s.db) := by
+        show (s.db.loops.map (absALoop s.db)).find? _ = _
+        rw [List.find?_map]
+      rw [hil]
+      cases hf : s.db.loops.find? ((fun y : ALoop => y.cid == hd.id && y.hasItem nm.key) ∘ absALoop s.db) with
+      | none =>
+        simp only [Option.map_none]
+        have hno : s.db.hasItem hd.id nm.key = false := by
+          cases hh : s.db.hasItem hd.id nm.key with
+          | false => rfl
+          | true =>
+            obtain ⟨i, him, hic, hik⟩ := (hasItem_iff _ _ _).mp hh
+            obtain ⟨y, hy, hyc, hyn⟩ := (hasLoop_iff _ _ _).mp (hinv.itemFK i him)
+            have := List.find?_eq_none.mp hf y hy
+            simp only [Function.comp, Bool.and_eq_true, not_and, Bool.not_eq_true] at this
+            have h1 : ((absALoop s.db y).cid == hd.id) = true := by simp [absALoop, hyc, hic]
+            have h2 := this h1
+            rw [hasItem_absALoop] at h2
+            have : (s.db.loopItems y.cid y.loopNum).any (fun i => i.name == nm.key) = true :=
+              List.any_eq_true.mpr ⟨i, List.mem_filter.mpr ⟨him, by simp [hyc, hyn]⟩, by simp [hik]⟩
+            rw [this] at h2; cases h2
+        have hls : s.db.loopSize hd.id nm.key = none := by
+          unfold Db.loopSize Db.loopOfItem
+          have : s.db.items.find? (fun i => i.cid == hd.id && i.name == nm.key) = none := by
+            apply List.find?_eq_none.mpr
+            intro i him hk
+            simp at hk
+            have := (hasItem_iff _ _ _).mpr ⟨i, him, hk.1, hk.2⟩
+            rw [hno] at this; cases this
+          rw [this]; rfl
+        have hls' : Db.loopSize ({ s with txn := some s.db } : Store).db hd.id nm.key = none := hls
+        rw [hls']
+        simp only []
+        exact ⟨by rw [begin_rollback' s _ hb], by first | rfl | trivial⟩
+      | some y =>
+        simp only [Option.map_some]
+        have hy := List.mem_of_find?_eq_some hf
+        have hk := List.find?_some hf
+        simp only [Function.comp, Bool.and_eq_true] at hk
+        have hyc : y.cid = hd.id := by simpa [absALoop] using hk.1
+        have hhas := hk.2
+        rw [hasItem_absALoop] at hhas
+        obtain ⟨i, hi, hik⟩ := List.any_eq_true.mp hhas
+        have hik' : i.name = nm.key := by simpa using hik
+        obtain ⟨him, hikey⟩ := List.mem_filter.mp hi
+        have hikey' : i.cid = y.cid ∧ i.loopNum = y.loopNum := by simpa using hikey
+        -- GET_LOOP_SIZE_SQL finds this loop
+        have hls : s.db.loopSize hd.id nm.key = some (y.loopNum, (s.db.loopItems y.cid y.loopNum).length) := by
+          unfold Db.loopSize Db.loopOfItem
+          cases hfi : s.db.items.find? (fun i => i.cid == hd.id && i.name == nm.key) with
+          | none =>
+            have := List.find?_eq_none.mp hfi i him
+            simp [hikey'.1, hyc, hik'] at this
+          | some i0 =>
+            have hm0 := List.mem_of_find?_eq_some hfi
+            have hk0 := List.find?_some hfi
+            simp at hk0
+            have : i0 = i := itemKey_unique s.db.items hinv.itemPK i0 hm0 i him (by rw [hk0.1, hikey'.1, hyc]) (by rw [hk0.2, hik'])
+            subst this
+            simp [hikey'.2, hyc]
+        have hls' : Db.loopSize ({ s with txn := some s.db } : Store).db hd.id nm.key = some (y.loopNum, (s.db.loopItems y.cid y.loopNum).length) := hls
+        rw [hls']
+        simp only []
+        have hlen : (absALoop s.db y).items.length = (s.db.loopItems y.cid y.loopNum).length := by simp [absALoop]
+        rw [hlen]
+        have hcommit : ∀ d1 : Db, ((({ ({ s with txn := some s.db } : Store) with db := d1 } : Store).commit).getD { s with txn := some s.db }).db = d1 := by
+          intro d1; simp [Store.commit, Store.autocommit]
+        by_cases hone : ((s.db.loopItems y.cid y.loopNum).length == 1) = true
+        · simp only [hone, if_true]
+          refine ⟨?_, by first | rfl | trivial⟩
+          rw [hcommit]
+          have := absS_deleteLoop s.db hg y hy
+          show absS (s.db.destroyLoop hd.id y.loopNum).1 = _
+          rw [← hyc]
+          exact this
+        · simp only [hone, Bool.false_eq_true, if_false]
+          refine ⟨?_, by first | rfl | trivial⟩
+          rw [hcommit]
+          have hone' : (s.db.loopItems y.cid y.loopNum).length ≠ 1 := by simpa using hone
+          obtain ⟨j0, hj0, hj0n⟩ := loopSize_other s.db hinv hd.id nm.key y.loopNum _ hls hone' i him (by rw [hikey'.1, hyc]) hik'
+          rw [hikey'.1, hikey'.2] at hj0
+          have hr := removeItem_good s.db hg y i j0 hy hi hj0 (by rw [hik']; exact hj0n)
+          simp only [] at hr
+          rw [hik', hyc] at hr
+          obtain ⟨htar, hoth, hl, hf', hb'⟩ := hr
+          -- the item table afterwards
+          have hitems : (s.db.removeItem hd.id nm.key).items = s.db.items.filter (fun j => !(j.cid == hd.id && j.name == nm.key)) := rfl
+          have hloops := absS_loops_map s.db (s.db.removeItem hd.id nm.key) id
+            (fun z => if z.cid == (absALoop s.db y).cid && z.num == (absALoop s.db y).num then z.dropItem nm.key else z)
+            (by rw [hl, List.map_id])
+            (by
+              intro z hz
+              simp only [id]
+              by_cases hm : (z.cid == y.cid && z.loopNum == y.loopNum) = true
+              · have hm' : ((absALoop s.db z).cid == (absALoop s.db y).cid && (absALoop s.db z).num == (absALoop s.db y).num) = true := hm
+                simp only [hm', if_true]
+                have hmk : z.cid = y.cid ∧ z.loopNum = y.loopNum := by simpa using hm
+                have : z = y := loopKey_unique s.db.loops hinv.loopPK z hz y hy hmk.1 hmk.2
+                subst this
+                have hli : (s.db.removeItem hd.id nm.key).loopItems z.cid z.loopNum = (s.db.loopItems z.cid z.loopNum).filter (fun j => !(j.name == nm.key)) := by
+                  unfold Db.loopItems
+                  rw [hitems, List.filter_filter, List.filter_filter]
+                  apply List.filter_congr
+                  intro j _
+                  rw [← hyc]
+                  cases (j.cid == z.cid) <;> cases (j.loopNum == z.loopNum) <;> cases (j.name == nm.key) <;> rfl
+                unfold absALoop ALoop.dropItem
+                rw [hli, htar]
+                simp only [absLoop_eq]
+                rw [hyc]
+                congr 1
+                · rw [List.filter_map]; rfl
+                · rw [List.map_map]
+                  apply List.map_congr_left
+                  intro r _
+                  simp only [Function.comp]
+                  exact (zip_map_filter_snd (fun j : ItemRow => (j.name, j.nameOrig)) (fun j => cell s.db hd.id j r)
+                    (fun j => !(j.name == nm.key)) (fun e => !(e.1 == nm.key)) (fun _ => rfl) _).symm
+              · have hm' : ((absALoop s.db z).cid == (absALoop s.db y).cid && (absALoop s.db z).num == (absALoop s.db y).num) = false := by
+                  show (z.cid == y.cid && z.loopNum == y.loopNum) = false
+                  simpa using hm
+                simp only [hm', Bool.false_eq_true, if_false]
+                have hli : (s.db.removeItem hd.id nm.key).loopItems z.cid z.loopNum = s.db.loopItems z.cid z.loopNum := by
+                  unfold Db.loopItems
+                  rw [hitems, List.filter_filter]
+                  apply List.filter_congr
+                  intro j hjm
+                  by_cases hj : (j.cid == z.cid && j.loopNum == z.loopNum) = true
+                  · -- j is not the removed item: that one lies in y
+                    have hjk : j.cid = z.cid ∧ j.loopNum = z.loopNum := by simpa using hj
+                    have : (j.cid == hd.id && j.name == nm.key) = false := by
+                      cases hb2 : (j.cid == hd.id && j.name == nm.key) with
+                      | false => rfl
+                      | true =>
+                        exfalso
+                        simp at hb2
+                        have : j = i := itemKey_unique s.db.items hinv.itemPK j hjm i him (by rw [hb2.1, hikey'.1, hyc]) (by rw [hb2.2, hik'])
+                        subst this
+                        apply hm
+                        simp [← hjk.1, ← hjk.2, hikey'.1, hikey'.2]
+                    simp [hj, this]
+                  · simp [hj]
+                unfold absALoop
+                rw [hli, hoth z hz (fun ⟨e1, e2⟩ => hm (by simp [e1, e2, hyc]))])
+          show ({ containers := (s.db.removeItem hd.id nm.key).containers, blocks := (s.db.removeItem hd.id nm.key).blocks,
+                  frames := (s.db.removeItem hd.id nm.key).frames, nextId := (s.db.removeItem hd.id nm.key).nextId,
+                  loops := (absS (s.db.removeItem hd.id nm.key)).loops } : AState) = _
+          rw [hloops, hf', hb']
+          rfl
+
+/-- cif_container_get_all_loops -/
+theorem allLoops_spec (s : Store) (h : CH) : (allLoops s h).1.db = s.db ∧ (allLoops s h).2 = specAllLoops (absS s.db) h := by
+  refine ⟨by unfold allLoops; rw [nestRO_db], ?_⟩
+  unfold allLoops specAllLoops
+  rw [nestRO_snd]
+  have hc : (absS s.db).containers.any (fun c => c.id == h.id) = s.db.hasContainer h.id := rfl
+  rw [hc]
+  cases s.db.hasContainer h.id with
+  | false => rfl
+  | true =>
+    simp only [Bool.not_true, Bool.false_eq_true, if_false]
+    rw [absS_filter_loops s.db (fun l => l.cid == h.id) _ (fun _ _ => rfl), List.map_map]
+    rfl
+
+/-- the caller's get_names over the handles cif_container_get_all_loops returned: the database is untouched and the answers are the
+    documented model's -/
+theorem foldNames_spec (d : Db) (hg : Good d) : ∀ (ls : List LH), (∀ l ∈ ls, l.validB d = true) →
+    ∀ (acc : Store × List (Option Str × Option (List Str))), acc.1.db = d →
+    (ls.foldl (fun (acc : Store × List (Option Str × Option (List Str))) l =>
+        match getNames acc.1 l with
+        | (s', .ok ns) => (s', acc.2 ++ [(l.category, some (ns.map (·.2)))])
+        | (s', .error _) => (s', acc.2 ++ [(l.category, none)])) acc).1.db = d ∧
+    (ls.foldl (fun (acc : Store × List (Option Str × Option (List Str))) l =>
+        match getNames acc.1 l with
+        | (s', .ok ns) => (s', acc.2 ++ [(l.category, some (ns.map (·.2)))])
+        | (s', .error _) => (s', acc.2 ++ [(l.category, none)])) acc).2 =
+      acc.2 ++ ls.map (fun l => match specGetNames (absS d) l with
+        | .ok ns => (l.category, some (ns.map (·.2)))
+        | .error _ => (l.category, none))
+  | [], _, acc, hdb => ⟨hdb, by simp⟩
+  | l :: ls, hv, acc, hdb => by
+    simp only [List.foldl_cons, List.map_cons]
+    have hvl := hv l List.mem_cons_self
+    have hsp := getNames_spec acc.1 l (by rw [hdb]; exact hg) (by rw [hdb]; exact hvl)
+    have hdb' : (getNames acc.1 l).1.db = d := by unfold getNames; rw [nestRO_db]; exact hdb
+    rw [hdb] at hsp
+    cases hr : getNames acc.1 l with
+    | mk s' r =>
+      rw [hr] at hsp hdb'
+      simp only [] at hsp hdb'
+      cases r with
+      | ok ns =>
+        have ih := foldNames_spec d hg ls (fun l' hl' => hv l' (List.mem_cons_of_mem _ hl')) (s', acc.2 ++ [(l.category, some (ns.map (·.2)))]) hdb'
+        simp only [] at ih ⊢
+        refine ⟨ih.1, ?_⟩
+        rw [ih.2, ← hsp.2, List.append_assoc]
+        rfl
+      | error c =>
+        have ih := foldNames_spec d hg ls (fun l' hl' => hv l' (List.mem_cons_of_mem _ hl')) (s', acc.2 ++ [(l.category, none)]) hdb'
+        simp only [] at ih ⊢
+        refine ⟨ih.1, ?_⟩
+        rw [ih.2, ← hsp.2, List.append_assoc]
+        rfl
+
+theorem validB_of_mem (d : Db) (hinv : Inv d) (x : LoopRow) (hx : x ∈ d.loops) (cid : Nat) (hc : x.cid = cid) :
+    LH.validB { cid := cid, loopNum := x.loopNum, category := x.category } d = true := by
+  unfold LH.validB
+  simp only []
+  have := find_loop_of_mem d hinv x hx
+  rw [hc] at this
+  rw [this]
+  simp
+
 -- ---- worlds ------------------------------------------------------------------------------------------------------------------------------
 
 open World in
@@ -1324,6 +1677,106 @@ theorem specStep_refines (w : World) (op : Op) (h : WOk w) (hin : inContract w o
         show ({ cifs := _, chs := _, lhs := _, its := _ } : AWorld) = { cifs := _, chs := _, lhs := _, its := _ }
         congr 1
         exact (absW_setCif w e.cif _).symm
+  | getVal hh n =>
+    simp only [specStep, step, liveH_absW]
+    cases hl : w.liveH hh with
+    | none => rfl
+    | some pr =>
+      obtain ⟨e, s⟩ := pr
+      have hg := (h.good.live (liveH_liveC hl)).db
+      simp only [Option.map_some]
+      cases n with
+      | none => rfl
+      | some nm =>
+        have h1 := getValue_fst s e.h (some nm)
+        have h2 := getValue_spec s e.h (some nm) hg
+        simp only []
+        rw [← h2]
+        cases hr : getValue s e.h (some nm) with
+        | mk s1 r =>
+          rw [hr] at h1
+          simp only [] at h1
+          subst h1
+          cases r with
+          | error c =>
+            simp only [Option.some.injEq, Prod.mk.injEq, and_true]
+            show ({ cifs := _, chs := _, lhs := _, its := _ } : AWorld) = { cifs := _, chs := _, lhs := _, its := _ }
+            congr 1
+            exact (absW_setCif w e.cif _).symm
+          | ok va =>
+            obtain ⟨v, amb⟩ := va
+            simp only [Option.some.injEq, Prod.mk.injEq, and_true]
+            show ({ cifs := _, chs := _, lhs := _, its := _ } : AWorld) = { cifs := _, chs := _, lhs := _, its := _ }
+            congr 1
+            exact (absW_setCif w e.cif _).symm
+  | rmItem hh n =>
+    simp only [specStep, step, liveH_absW]
+    cases hl : w.liveH hh with
+    | none => rfl
+    | some pr =>
+      obtain ⟨e, s⟩ := pr
+      have hin' : w.cifBusy e.cif = false ∧ e.h.validB s.db = true := by
+        have : okH w hh = true := hin
+        unfold okH at this; rw [hl] at this
+        simp only [Bool.and_eq_true, Bool.not_eq_true'] at this; exact this
+      have hg := (h.good.live (liveH_liveC hl)).db
+      obtain ⟨h1, h2⟩ := removeItem_spec s e.h n hg (h.autocommit (liveH_liveC hl) hin'.1)
+      simp only [Option.map_some]
+      rw [← h1, ← h2]
+      simp only [Option.some.injEq, Prod.mk.injEq, and_true]
+      show ({ cifs := _, chs := _, lhs := _, its := _ } : AWorld) = { cifs := _, chs := _, lhs := _, its := _ }
+      congr 1
+      exact (absW_setCif w e.cif _).symm
+  | loops hh =>
+    simp only [specStep, step, liveH_absW]
+    cases hl : w.liveH hh with
+    | none => rfl
+    | some pr =>
+      obtain ⟨e, s⟩ := pr
+      have hg := (h.good.live (liveH_liveC hl)).db
+      obtain ⟨hdb1, hres⟩ := allLoops_spec s e.h
+      simp only [Option.map_some]
+      cases hr : allLoops s e.h with
+      | mk s1 r =>
+        rw [hr] at hdb1 hres
+        simp only [] at hdb1 hres
+        cases r with
+        | error c =>
+          simp only []
+          rw [← hres]
+          simp only [Option.some.injEq, Prod.mk.injEq, and_true]
+          show ({ cifs := _, chs := _, lhs := _, its := _ } : AWorld) = { cifs := _, chs := _, lhs := _, its := _ }
+          congr 1
+          rw [← hdb1]; exact (absW_setCif w e.cif s1).symm
+        | ok ls =>
+          simp only []
+          rw [← hres]
+          simp only []
+          -- the handles returned are valid
+          have hv : ∀ l ∈ ls, l.validB s.db = true := by
+            intro l hlm
+            have : Except.ok ls = specAllLoops (absS s.db) e.h := hres
+            unfold specAllLoops at this
+            split at this
+            · cases this
+            · simp only [Except.ok.injEq] at this
+              rw [this] at hlm
+              obtain ⟨y, hy, rfl⟩ := List.mem_map.mp hlm
+              obtain ⟨hym, hyc⟩ := List.mem_filter.mp hy
+              have hym' : y ∈ s.db.loops.map (absALoop s.db) := hym
+              obtain ⟨x, hx, rfl⟩ := List.mem_map.mp hym'
+              exact validB_of_mem s.db hg.inv x hx e.h.id (by simpa [absALoop] using hyc)
+          obtain ⟨f1, f2⟩ := foldNames_spec s.db hg ls hv (s1, []) hdb1
+          simp only [List.nil_append] at f2
+          simp only [Option.some.injEq, Prod.mk.injEq]
+          refine ⟨?_, congrArg (fun o => ({ rc := some CIF_OK, out := Out.loops o } : Result)) f2.symm⟩
+          show ({ cifs := _, chs := _, lhs := _, its := _ } : AWorld) = { cifs := _, chs := _, lhs := _, its := _ }
+          congr 1
+          have f1' : (List.foldl (fun (acc : Store × List (Option Str × Option (List Str))) l =>
+              match getNames acc.1 l with
+              | (s', .ok ns) => (s', acc.2 ++ [(l.category, some (ns.map (·.2)))])
+              | (s', .error _) => (s', acc.2 ++ [(l.category, none)])) (s1, []) ls).1.db = s.db := f1
+          rw [← f1']; exact (absW_setCif w e.cif _).symm
   | _ => cases hc
 
 end CifModel.Store
